@@ -311,6 +311,34 @@ func b2i(b bool) int {
 //@   loop 3 invariant forall x wqPtr :: p9InR(x, u, i) && rgRank(x) < rgRank(q) ==> !rgSnd(x)
 //@   noframe
 
+// lemmaPop9218Control (C13, quick tier): the control-frame path of Pop on its own. When the control
+// queue holds a frame, Pop returns exactly its first frame, the queue shrinks by one, and the
+// toggle, every ring head, every ring link and the stream table are what they were: a Pop that
+// serves a control frame does not take part in the incremental/non-incremental alternation.
+// Nothing is required of the rings (the path never looks at them). The harness asks the queue
+// itself whether it is empty before calling Pop (with the precondition that branch is dead: the
+// first clause proves rok), so that the verifier executes Pop's body with the ring loops cut off
+// and this unit stays small enough for the quick tier; the full contract of Pop above covers the
+// same clauses together with the ring scan (thorough tier).
+//
+//@ lemma
+//@ usebody (*priorityWriteSchedulerRFC9218).Pop
+//@ usebody (*writeQueue).empty
+//@ requires ws != nil && wqOK(&ws.control) && (!samebase(ws.control.currQueue, ws.control.nextQueue) || (cap(ws.control.currQueue) == 0 && cap(ws.control.nextQueue) == 0))
+//@ requires wqLen(&ws.control) > 0
+//@ ensures rok && res == old(wqAt(&ws.control, 0)) && wqLen(&ws.control) == old(wqLen(&ws.control)) - 1
+//@ ensures ws.prioritizeIncremental == old(ws.prioritizeIncremental)
+//@ ensures forall u int, i int :: 0 <= u && u < 8 && 0 <= i && i < 2 ==> ws.heads[u][i] == old(ws.heads[u][i])
+//@ ensures forall x wqPtr :: x.next == old(x.next) && x.prev == old(x.prev)
+//@ ensures forall s uint32 :: ws.streams[s] == old(ws.streams[s])
+//@ noframe
+func lemmaPop9218Control(ws *priorityWriteSchedulerRFC9218) (res FrameWriteRequest, rok bool) {
+	if ws.control.empty() {
+		return FrameWriteRequest{}, false
+	}
+	return ws.Pop()
+}
+
 // ---------------------------------------------------------------------------
 // Push of the four schedulers (C12): the request is appended to exactly one queue, after
 // everything that queue holds; the frame (modifies) says that nothing else changes, so the queued
